@@ -460,7 +460,7 @@ pub fn generated_batch(cases: &[Case], tag: &str) -> Result<(Vec<crate::runner::
             None => continue,
         };
         let text = spec_of(c).render();
-        let cfg = BConfig { glr: c.glr, builder: 1, arrays: g.arrays, loc_info: false, fancy: g.fancy, custom_lexer: false, rn_table: false };
+        let cfg = BConfig { glr: c.glr, builder: 1, arrays: g.arrays, loc_info: false, fancy: g.fancy, custom_lexer: false, rn_table: false , no_skip_ws: false };
         let m = format!("m{i}");
         match sc.generate(&m, &text, &cfg) {
             GenResult::Ok => {}
